@@ -11,6 +11,7 @@ mod ops_apply;
 mod ops_case;
 mod ops_variant;
 mod ops_serde;
+mod ops_renameplan;
 mod ops_clap;
 mod ops_scope;
 
@@ -21,6 +22,7 @@ const HANDLERS: &[fn(&[&str]) -> Option<String>] = &[
     ops_case::dispatch,
     ops_variant::dispatch,
     ops_serde::dispatch,
+    ops_renameplan::dispatch,
     ops_clap::dispatch,
     ops_scope::dispatch,
 ];
